@@ -35,8 +35,11 @@ const (
 func Predict(spec *gen.MsgSpec, flags uint, noMore bool, avail int) Pred {
 	h := spec.HdrEnd()
 	need := h
-	if spec.Blank == "\r" {
-		need++ // a lone CR is an empty line only once the next byte is known not to be LF
+	if spec.Blank == "\r" && !(noMore && avail == h) {
+		// a lone CR is an empty line only once the next byte is known not to be LF - or once the
+		// receiver says that no more data will come: then the same message, which is accepted when
+		// another one follows it, is complete on its own as well
+		need++
 	}
 	clIdx := spec.FirstOf("content-length")
 	hasCL := clIdx >= 0
@@ -59,10 +62,11 @@ func Predict(spec *gen.MsgSpec, flags uint, noMore bool, avail int) Pred {
 			n = int(v.Int64())
 		}
 	}
-	if noMore && spec.Blank == "\r" && avail == h {
-		// the blank line is a lone CR and the input ends right after it: whether "no more data" makes
-		// that CR a complete empty line is not fixed by the property
-		return Pred{Ret: -1, BodyLen: -1, Why: "model: lone-CR blank line at end of input, no prediction"}
+	if noMore && spec.Blank == "\r\n" && avail == h-1 {
+		// the input ends between the CR and the LF of the blank line and no more data will come:
+		// the receiver sees a header block that ends in a bare CR, which the library reads as a
+		// complete empty line; the sender meant a truncated one. No prediction.
+		return Pred{Ret: -1, BodyLen: -1, Why: "model: input ends inside the blank CRLF in no-more-data mode, no prediction"}
 	}
 	if avail < need {
 		p := Pred{Ret: -1, BodyLen: -1, Why: fmt.Sprintf("header block incomplete (%d of %d bytes)", avail, need)}
@@ -168,7 +172,10 @@ func C06Alone(spec *gen.MsgSpec, cfg sut.Cfg, recv *sut.MsgD, buf []byte, start,
 				pan = fmt.Sprint(r)
 			}
 		}()
-		aret, aerr = a.Call(alone, 0, false)
+		// (a message accepted by the call made at the end of input, up to the last byte, is parsed
+		// alone with the end-of-input flag as well: its last byte may be a bare CR that only
+		// "no more data" turns into a complete empty line)
+		aret, aerr = a.Call(alone, 0, eofCall && ret == len(buf))
 	}()
 	if pan != "" {
 		return "parsing the message alone panicked: " + pan
